@@ -185,7 +185,8 @@ func (vm *VM) Run() error {
 			}
 			elements := make([]value, 0, n*repetitions)
 			for range repetitions {
-				elements = append(elements, left.Elements...)
+				// every repetition gets its own copy of nested arrays and maps
+				elements = append(elements, deepCopy(left).(arrayVal).Elements...)
 			}
 			err = vm.push(arrayVal{Elements: elements})
 		case OpMap:
